@@ -46,6 +46,7 @@ fn generate(rng: &mut Rng) -> ConnScenario {
     client.name = gen_name(rng);
     client.uuid = format!("{:032x}", gen_uuid(rng));
     client.enc = gen_enc(rng);
+    client.info = gen_info(rng);
     let wall = Wall::default();
     let mut prior_cookie: Option<Vec<u8>> = None;
     // optionally a valid (or subtly invalid) cookie carrying another identity
